@@ -28,6 +28,59 @@ if [ "$id" = "C09" ]; then
 fi
 case "$1" in
   --replay) exec $bin check "$id" --replay "$2" ;;
-  thorough) exec $bin check "$id" --tier thorough ;;
+  thorough) ;;
   *) exec $bin check "$id" --tier quick ;;
 esac
+
+# ---- thorough: proptest part, then a coverage-guided libFuzzer campaign ----
+$bin check "$id" --tier thorough
+rc=$?
+[ $rc -ne 0 ] && exit $rc
+case "$id" in
+  C01|C06) target=structured; gen=exec ;;
+  C18) target=structured; gen=exec-dup ;;
+  C03|C04) target=structured; gen=full ;;
+  C02|C07|C08|C11|C19|C20) target=structured; gen=full-nobig ;;
+  C10) target=structured; gen=dwarf ;;
+  C12) target=structured; gen=customs ;;
+  C13) target=structured; gen=names ;;
+  C14) target=structured; gen=c14 ;;
+  C15|C16) target=structured; gen=builder ;;
+  C17) target=structured; gen=c17 ;;
+  C05) target=gate; gen=bytes ;;
+  *) exit 0 ;;   # C09: the co-process protocol is not wired into a fuzz target
+esac
+seed=$(( ${VERIF_SEED:-0} + 1 ))
+runs=${VERIF_FUZZ_RUNS:-300000}
+corpus="fuzz/corpus/$target-$id-$$"
+mkdir -p "$corpus"
+if [ "$target" = gate ]; then
+  ./target/release/walrus-verif dump-corpus "$corpus" >/dev/null 2>&1
+else
+  python3 - "$corpus" "$seed" <<'PY'
+import sys, random
+d, seed = sys.argv[1], int(sys.argv[2])
+r = random.Random(seed)
+for i in range(16):
+    n = [64, 200, 600, 1500][i % 4]
+    open(f"{d}/seed{i}", "wb").write(bytes(r.randrange(256) for _ in range(n)))
+PY
+fi
+log="fuzz/fuzz-$id-$$.log"
+VERIF_FUZZ_PROP=$id VERIF_FUZZ_GEN=$gen cargo +nightly fuzz run "$target" "$corpus" -- \
+    -runs=$runs -seed=$seed -max_len=4096 -len_control=0 -rss_limit_mb=6000 -timeout=120 \
+    -max_total_time=${VERIF_FUZZ_SECONDS:-900} -print_final_stats=1 >"$log" 2>&1
+frc=$?
+grep -E "^VIOLATION|^  failure" "$log"
+execs=$(grep -o "stat::number_of_executed_units: [0-9]*" "$log" | grep -o "[0-9]*$" | tail -1)
+cov=$(grep -o "cov: [0-9]*" "$log" | tail -1 | grep -o "[0-9]*")
+./target/release/walrus-verif evidence-add "$id" libfuzzer "{\"target\":\"$target\",\"generator\":\"$gen\",\"executions\":${execs:-0},\"edge_coverage\":${cov:-0},\"seed\":$seed,\"exit\":$frc}" >/dev/null 2>&1
+rm -rf "$corpus"
+if grep -q "^VIOLATION" "$log"; then rm -f "$log"; exit 1; fi
+if [ $frc -ne 0 ] && ! grep -q "stat::number_of_executed_units" "$log"; then
+  echo "libFuzzer campaign did not run (build failure or crash outside the oracle); see $log" >&2
+  tail -20 "$log" >&2
+  exit 2
+fi
+rm -f "$log"
+exit 0
